@@ -22,9 +22,89 @@ func (in *Interp) boxLen(b *Box) *Term {
 	if b.lenT == nil {
 		l := in.fresh(fmt.Sprintf("zz.boxlen.%d", b.id), BV(64))
 		in.pc = append(in.pc, BVSge(l, goInt(0)), BVSle(l, goInt(1<<30)))
+		// proto3: a message encodes to zero bytes iff every field has its default value
+		if b.alt == 0 {
+			if nz := in.boxNonZero(b.val, 0); nz != nil {
+				in.pc = append(in.pc, Eq(Eq(l, goInt(0)), Not(nz)))
+			}
+		}
 		b.lenT = l
 	}
 	return b.lenT
+}
+
+// boxNonZero: "some field of the message value differs from its proto3 default" as a term, or nil
+// when the value contains something the walk does not understand (then nothing is asserted).
+func (in *Interp) boxNonZero(v Value, depth int) *Term {
+	if depth > 6 {
+		return nil
+	}
+	switch x := v.(type) {
+	case nil:
+		return False
+	case *Term:
+		switch x.sort.K {
+		case SBool:
+			return x
+		case SInt:
+			return Not(Eq(x, IntConst(0)))
+		default:
+			return Not(Eq(x, BVConst(x.sort.W, 0)))
+		}
+	case *StringV:
+		if x.n == nil {
+			return BoolConst(len(x.b) > 0)
+		}
+		return Not(lenEq(x.n, 0))
+	case *SliceV:
+		if x == nil || (x.base == nil && x.box == nil) {
+			return False
+		}
+		if x.box != nil {
+			return Not(lenEq(in.boxLen(x.box), 0))
+		}
+		return Not(lenEq(x.n, 0))
+	case *Pointer:
+		return BoolConst(x != nil) // a present sub-message is encoded (tag + length) even when empty
+	case *IfaceV:
+		return BoolConst(x != nil && x.T != nil)
+	case *MapObj:
+		if x == nil {
+			return False
+		}
+		cs := []*Term{}
+		for _, e := range x.entries {
+			if e.live == nil {
+				return True
+			}
+			cs = append(cs, e.live)
+		}
+		return Or(cs...)
+	case *StructV:
+		cs := []*Term{}
+		for _, f := range x.f {
+			t := in.boxNonZero(f, depth+1)
+			if t == nil {
+				return nil
+			}
+			if t == True {
+				return True
+			}
+			cs = append(cs, t)
+		}
+		return Or(cs...)
+	case *ArrayV:
+		cs := []*Term{}
+		for _, f := range x.e {
+			t := in.boxNonZero(f, depth+1)
+			if t == nil {
+				return nil
+			}
+			cs = append(cs, t)
+		}
+		return Or(cs...)
+	}
+	return nil
 }
 
 // deepEq compares two values following pointers (used for marshalled message equality: two
